@@ -100,7 +100,7 @@ def check(tier, seed):
             # response
             good = [it for it in items if not C.guarded(K.impl_pack, *it).startswith('!')]
             body = b''.join(bytes.fromhex(K.impl_pack(*it)) for it in good)
-            hdr = bytes([rng.choice([0, 1]), rng.choice([0, 1, 2, 7]), rng.getrandbits(8), rng.getrandbits(8)])
+            hdr = bytes([rng.choice([0, 1, 1, 2, 3, 255]), rng.choice([0, 1, 2, 7, 255]), rng.getrandbits(8), rng.getrandbits(8)])      # any header: only a malformed PAIR is a reason to reject
             mode = rng.choice(['ok', 'ok', 'trunc', 'corrupt', 'tail', 'hdronly', 'badpair', 'keyonly'])
             if mode == 'keyonly' and good:
                 # the last pair is cut right after its 4-byte key (or inside it): malformed, must be rejected
